@@ -490,6 +490,27 @@ func (g *GoBackNConn) sendPacketsForever() error {
 				if err := resendQueue(); err != nil {
 					return err
 				}
+
+			case <-g.pingTicker.Ticks():
+				// The queue is full, so we can't add a ping packet
+				// to it. The packets in the queue are resent
+				// periodically though, and any response to them
+				// pauses the pong ticker again. So all we need
+				// to do here is to start the pong timer, to make
+				// sure that a peer that has gone away is also
+				// detected while our queue is full.
+				select {
+				case <-g.pongTicker.Ticks():
+					return errKeepaliveTimeout
+				default:
+				}
+
+				g.pongTicker.Reset()
+				g.pongTicker.Resume()
+				g.pingTicker.Reset()
+
+			case <-g.pongTicker.Ticks():
+				return errKeepaliveTimeout
 			}
 		}
 	}
